@@ -130,7 +130,7 @@ class Scenario:
         self.lines.append("%s %d %s" % (op, i, raw.hex()))
         return self
 
-    GAPS_MS = [1, 999, 1000, 5000, 29999, 30001, 59999, 60001, 120000, 3600000, 40000000, 1 << 33]
+    GAPS_MS = [1, 999, 1000, 5000, 29999, 30001, 59999, 60001, 120000, 3600000, 3600001, 40000000, (1 << 32) + 30000, 1 << 33]
     BASES_MS = [0, 1, 999, 10 ** 6, (1 << 32) - 20000, (1 << 32) + 5, 1 << 40]
 
     def frames(self, i, frames, rng=None, p_gap=0.0, base=False, inserts=None, shadow=None):
